@@ -1474,6 +1474,9 @@ class PyCdlib:
                 # The data location for files will be set later.
                 if udf_file_assign_entry.inode.get_data_length() > 0:
                     udf_files.append(udf_file_assign_entry.inode)
+                    # The rest of a file larger than one ISO9660 extent has to
+                    # follow directly.
+                    udf_files.extend(udf_file_assign_entry.more_inodes)
                 for rec, pvd_unused in udf_file_assign_entry.inode.linked_records:
                     if isinstance(rec, udfmod.UDFFileEntry):
                         rec.set_extent_location(current_extent,
@@ -2320,6 +2323,18 @@ class PyCdlib:
                             ino.num_udf += 1
                             next_entry.inode = ino
 
+                            # A file that is larger than one ISO9660 extent
+                            # goes on in the Inodes that follow the first one.
+                            covered = ino.get_data_length()
+                            next_extent = abs_file_data_extent + utils.ceiling_div(covered, self.logical_block_size)
+                            while covered < next_entry.get_data_length() and abs_file_data_extent != 0 and next_extent in extent_to_inode:
+                                more = extent_to_inode[next_extent]
+                                if more.get_data_length() == 0:
+                                    break
+                                next_entry.more_inodes.append(more)
+                                covered += more.get_data_length()
+                                next_extent += utils.ceiling_div(more.get_data_length(), self.logical_block_size)
+
     def _open_fp(self, fp):
         # type: (IO) -> None
         """
@@ -2610,8 +2625,9 @@ class PyCdlib:
             raise pycdlibexception.PyCdlibInvalidInput('Cannot write out an entry without data')
 
         if found_file_entry.get_data_length() > 0:
-            with inode.InodeOpenData(found_file_entry.inode, self.logical_block_size) as (data_fp, data_len):
-                utils.copy_data(data_len, blocksize, data_fp, outfp)
+            for ino in [found_file_entry.inode] + found_file_entry.more_inodes:
+                with inode.InodeOpenData(ino, self.logical_block_size) as (data_fp, data_len):
+                    utils.copy_data(data_len, blocksize, data_fp, outfp)
 
     def _get_file_from_iso_fp(self, outfp, blocksize, iso_path, rr_path,
                               joliet_path):
@@ -3455,10 +3471,13 @@ class PyCdlib:
         offset = 0
         done = False
         num_bytes_to_add = 0
+        new_inodes = []  # type: List[inode.Inode]
         while not done:
             # The maximum length we allow in one directory record is 0xfffff800
             # (this is taken from xorriso, though I don't really know why).
-            thislen = min(left, 0xfffff800)
+            # A UDF File Entry has no such limit, so a file that only has a
+            # UDF name is kept in one piece.
+            thislen = min(left, 0xfffff800) if (iso_path or joliet_path) else left
 
             ino = None
             if fp is not None:
@@ -3487,6 +3506,7 @@ class PyCdlib:
             # everything above succeeds
             if ino is not None:
                 self.inodes.append(ino)
+                new_inodes.append(ino)
 
             left -= thislen
             offset += thislen
@@ -3495,10 +3515,18 @@ class PyCdlib:
 
         if udf_path:
             try:
+                # The UDF File Entry describes the whole file, which starts at
+                # the first of the Inodes.
+                if new_inodes:
+                    ino = new_inodes[0]
                 num_bytes_to_add += self._add_hard_link_to_inode(ino, length,
                                                                  fmode,
                                                                  eltorito_catalog,
                                                                  udf_new_path=udf_path)
+                if len(new_inodes) > 1:
+                    (ident_unused, new_file_entry) = self._find_udf_record(utils.normpath(udf_path))
+                    if new_file_entry is not None:
+                        new_file_entry.more_inodes = new_inodes[1:]
             except pycdlibexception.PyCdlibInvalidInput:
                 # If the UDF name was refused and nothing else refers to the
                 # new Inode, stop tracking it; otherwise mastering would try to
@@ -3524,6 +3552,14 @@ class PyCdlib:
 
         num_bytes_to_remove = 0
 
+        # The later extents of a large file are still needed as long as a UDF
+        # File Entry describes the whole file.
+        needed_by_udf = set()
+        if rec.inode is not None:
+            for link, is_pvd_unused in rec.inode.linked_records:
+                if isinstance(link, udfmod.UDFFileEntry):
+                    needed_by_udf.update(id(more) for more in link.more_inodes)
+
         done = False
         while not done:
             num_bytes_to_remove += self._remove_child_from_dr(rec,
@@ -3545,7 +3581,7 @@ class PyCdlib:
 
                 # We only remove the size of the child from the ISO if there are
                 # no other references to this file on the ISO.
-                if not rec.inode.linked_records:
+                if not rec.inode.linked_records and id(rec.inode) not in needed_by_udf:
                     found_index = None
                     for index, ino in enumerate(self.inodes):
                         if id(ino) == id(rec.inode):
@@ -3636,7 +3672,18 @@ class PyCdlib:
                     raise pycdlibexception.PyCdlibInternalError('Could not find inode corresponding to record')
                 del self.inodes[found_index]
 
-                num_bytes_to_remove += rec.get_data_length()
+                num_bytes_to_remove += rec.inode.get_data_length()
+
+                # The later extents of a large file go with it, unless
+                # something else still refers to them.
+                for more in rec.more_inodes:
+                    if more.linked_records:
+                        continue
+                    for index, ino in enumerate(self.inodes):
+                        if id(ino) == id(more):
+                            del self.inodes[index]
+                            num_bytes_to_remove += more.get_data_length()
+                            break
 
             # Step 3.
             if rec.inode.num_udf == 0:
@@ -6344,6 +6391,8 @@ class PyCdlib:
 
         # A file larger than one extent is a chain of records, one per extent.
         more_inodes = []  # type: List[inode.Inode]
+        if isinstance(rec, udfmod.UDFFileEntry):
+            more_inodes = rec.more_inodes
         if isinstance(rec, dr.DirectoryRecord):
             cont = rec.data_continuation
             while cont is not None:
